@@ -133,6 +133,7 @@ NAMES = {
     "dash": {"x": "a-b", "k": "k-cat", "v1": "v-1", "d": "d-1"},
     "space": {"x": "a b", "k": "k cat", "v1": "v 1", "d": "d 1"},
     "keyword": {"x": "class", "k": "lambda", "v1": "def", "d": "in"},
+    "unicode": {"x": "S\u03b2", "k": "k_\u00b5max", "v1": "v\u03bb", "d": "d\u03c3"},  # legal Python identifiers, not legal SBML ids
     # names the code generator behind sbml.read makes up itself (init_<name> for initial assignments, ...)
     "internal-y": {"x": "x", "k": "k", "v1": "v1", "d": "init_y"},
     "internal-p": {"x": "x", "k": "k", "v1": "v1", "d": "init_p"},
